@@ -143,6 +143,11 @@ Definition sum1 {A} (op : A -> A -> A) (l : list A) : option A :=
 
 Definition jax_samples (primals : mf) (res : list mf) : list mf :=
   map (fun r => flexible_addsub primals r false) res.
+(* evi.py Samples.at(pos, old_pos) with old_pos given: the new residuals are the ABSOLUTE samples
+   minus old_pos:  smpls = self.samples;  smpls = s - old_pos[None]  *)
+Definition jax_at_old (pos old : mf) (res : list mf) : list mf :=
+  map (fun r => flexible_addsub (flexible_addsub pos r false) old true) res.
+
 Definition jax_kl_value (primals : mf) (res : list mf) : option T :=
   match sum1 tadd (map (hval []) (jax_samples primals res)) with
   | Some s => Some (tdivn s (length res)) | None => None end.
